@@ -17,6 +17,10 @@ Independent specification of C20, written from the property text (not from the c
   its plain bases and binds all parameters of an ordinary generic class — `class IntL(Labelled[int], GenericMixin)` — is such a
   subclass too: its generic base is the one subscripted base whose origin is a generic class; further subscripted bases whose
   origins have no subscripted base anywhere in their ancestry (`Sequence[int]`, `list[int]`) may stand anywhere.
+  A class that declares `Generic[K1..Km]` may also stand on a plain base that is a GenericMixin class with all parameters bound
+  (`class CachedUserRepo(UserRepo, Generic[K])` over `class UserRepo(Repo[User])`): it is a class that declares `Generic[K1..Km]`
+  together with GenericMixin, its answer is `{Ki: Xi}` of its own instantiation; to any depth (a subclass may bind it again, a
+  further subclass may declare `Generic[…]` again).
   Not claimed: two subscripted GenericMixin bases, several subscripted bases with generic-class origins where none is a
   GenericMixin class, partially bound parameters, a `Generic[…]` re-declared over a GenericMixin base, generic classes listed as
   plain (unsubscripted) mixins, diamonds.
@@ -39,6 +43,11 @@ inductive Kind where
   | bound (m : List (TArg × TArg))              -- binds all parameters of its generic base (or plain subclass thereof)
   | unsupported
 deriving DecidableEq, Repr
+
+/-- all parameters are bound: a fully binding subclass, or a plain subclass of one -/
+def Kind.isBound : Kind → Bool
+  | .bound _ => true
+  | _ => false
 
 def genericOf : BaseRef → Option (List Nat)
   | .generic tvs => some tvs
@@ -102,7 +111,12 @@ def kindOf (t : Table) : Nat → Nat → Kind
       -- (`Labelled[str]`, `Sequence[T1]`), any number, before or after `Generic[…]`.  A parametrised base that is itself a
       -- GenericMixin class (`class C(A[int], Generic[T])`) makes both sentences of the property apply with different answers:
       -- nothing is claimed there.
-      if mixinsOk && decide tvs.Nodup && ps.all (fun p => foreign t d p.1) then .direct tvs else .unsupported
+      -- A plain base may also be a GenericMixin class whose parameters are ALL BOUND already — a fully binding subclass, or a plain
+      -- subclass of one: `class CachedUserRepo(UserRepo, Generic[K])` over `class UserRepo(Repo[User])`.  Nothing of the bound base is
+      -- left open, so the class declares exactly `Generic[K]` together with the (inherited) GenericMixin: `CachedUserRepo[str]()`
+      -- answers `{K: str}` — never the `{T: User}` of its base, whoever was asked before —, `CachedUserRepo()` is refused.
+      if (bs.filterMap plainOf).all (fun p => nonGeneric t d p || (kindOf t d p).isBound)
+          && decide tvs.Nodup && ps.all (fun p => foreign t d p.1) then .direct tvs else .unsupported
     | [], p :: ps' =>                    -- class C(…mixins…, B[X1..Xn], …mixins…): no `Generic[…]`, subscripted bases
       -- "their generic base" is the ONE subscripted base that is a GenericMixin class declaring `Generic[T1..Tn]`; every other
       -- subscripted base — any number, at any position, before or after it — has nothing to do with GenericMixin (an ordinary
@@ -184,9 +198,15 @@ def decoratedAlong (t : Table) (k : Key) : List Nat → List Nat → List ((Nat 
   | _, [] => []
   | pre, c :: rest => decoratedIn t k pre c ++ decoratedAlong t k (pre ++ [c]) rest
 
+/-- the bound methods of an instance whose `__dict__` defines the names `shadow` itself (`self.cb = f` in `__init__`): a name the
+    instance defines is no method of the instance any more -/
+def visibleDecorated (t : Table) (k : Key) (mro : List Nat) (shadow : List Name) : List ((Nat × Name) × Val) :=
+  (decoratedAlong t k [] mro).filter fun e => !shadow.contains e.1.2
+
 /-- for every member: exactly the visible decorated methods with the decorator argument -/
-def expectedDecorated (t : Table) (mro : List Nat) (members : List Key) : List (Key × List ((Nat × Name) × Val)) :=
-  members.map fun k => (k, decoratedAlong t k [] mro)
+def expectedDecorated (t : Table) (mro : List Nat) (members : List Key) (shadow : List Name) :
+    List (Key × List ((Nat × Name) × Val)) :=
+  members.map fun k => (k, visibleDecorated t k mro shadow)
 
 /-- the function object a transformation must receive, the type and the value: one entry per application that has a
     transformation, in application order -/
@@ -205,18 +225,56 @@ def keyFree (members : List Key) (attrs : List (Key × Val)) : Bool := attrs.all
 /-- a member of a class namespace stays inside the property's vocabulary:
     * transformations keep the function attributes (return the function or a functools.wraps wrapper);
     * only plain methods with non-dunder names are decorated with members of the enum;
-    * other objects reachable through the instance do not carry attributes named like enum values;
+    * other objects reachable through the instance do not carry attributes named like enum values — neither in their `__dict__` nor
+      by themselves: functions / bound methods (`__doc__`, `__name__`), the str that `class_name` returns (`upper`), the dict that
+      `type_vars` returns (`get`, `keys`), the enum class that `type_var` returns (member names, `upper`);
     * no property raises. -/
-def memberOk (members : List Key) (clsAttrs : List (Key × Val)) (n : Name) : MemberDef → Bool
+def memberOk (members : List Key) (ia : Intr) (n : Name) : MemberDef → Bool
   | .func .inst apps =>
-    apps.all (fun a => a.tr != Tr.fresh) && (!(isDunder n) || apps.all fun a => !members.contains a.ty)
-  | .func _ apps => apps.all fun a => !members.contains a.ty
+    apps.all (fun a => a.tr != Tr.fresh) && (!(isDunder n) || apps.all fun a => !members.contains a.ty) && keyFree members ia.fn
+  | .func _ apps => (apps.all fun a => !members.contains a.ty) && keyFree members ia.fn
   | .other _ attrs => keyFree members attrs
   | .raising _ => isDunder n
-  | .typeVarProp => keyFree members clsAttrs
+  | .typeVarProp => keyFree members ia.cls
+  | .typeVarsProp => keyFree members ia.dict
+  | .classNameProp => keyFree members ia.str
 
-def decoGuard (t : Table) (mro : List Nat) (members : List Key) (clsAttrs : List (Key × Val)) : Bool :=
-  decide members.Nodup && mro.all fun c =>
-    decide ((nsOf t c).map (·.1)).Nodup && (nsOf t c).all fun p => memberOk members clsAttrs p.1 p.2
+/-- an entry of the instance `__dict__` stays inside the vocabulary: it carries no attribute named like an enum value -/
+def instOk (members : List Key) (ia : Intr) : InstVal → Bool
+  | .fn _ apps => (apps.all fun a => !members.contains a.ty) && keyFree members ia.fn
+  | .obj _ attrs => keyFree members attrs
+
+def decoGuard (t : Table) (mro : List Nat) (members : List Key) (ia : Intr) (inst : InstNs) : Bool :=
+  decide members.Nodup && (mro.all fun c =>
+    decide ((nsOf t c).map (·.1)).Nodup && (nsOf t c).all fun p => memberOk members ia p.1 p.2) &&
+  decide (inst.map (·.1)).Nodup && inst.all fun p => instOk members ia p.2
+
+/-! ### the regions outside the guard, by name (finding ids of `known_findings.json`) -/
+
+/-- which clause of the guard a class member breaks -/
+def memberRegions (members : List Key) (ia : Intr) (n : Name) : MemberDef → List String
+  | .func .inst apps =>
+    (if apps.all (fun a => a.tr != Tr.fresh) then [] else ["transformationDropsDecoratorAttribute"]) ++
+    (if !(isDunder n) || apps.all (fun a => !members.contains a.ty) then [] else ["decoratedDunderMethodSkipped"]) ++
+    (if keyFree members ia.fn then [] else ["enumValueCollidesWithAttributeName"])
+  | .func _ apps =>
+    (if apps.all (fun a => !members.contains a.ty) then [] else ["decoratedStaticOrClassMethodReported"]) ++
+    (if keyFree members ia.fn then [] else ["enumValueCollidesWithAttributeName"])
+  | .other _ attrs => if keyFree members attrs then [] else ["foreignObjectWithDecoratorAttributeReported"]
+  | .raising _ => if isDunder n then [] else ["propertyEvaluatedByScan"]
+  | .typeVarProp => if keyFree members ia.cls then [] else ["enumValueCollidesWithAttributeName"]
+  | .typeVarsProp => if keyFree members ia.dict then [] else ["enumValueCollidesWithAttributeName"]
+  | .classNameProp => if keyFree members ia.str then [] else ["enumValueCollidesWithAttributeName"]
+
+def instRegions (members : List Key) (ia : Intr) : InstVal → List String
+  | .fn _ apps =>
+    (if apps.all (fun a => !members.contains a.ty) then [] else ["foreignObjectWithDecoratorAttributeReported"]) ++
+    (if keyFree members ia.fn then [] else ["enumValueCollidesWithAttributeName"])
+  | .obj _ attrs => if keyFree members attrs then [] else ["foreignObjectWithDecoratorAttributeReported"]
+
+/-- the named regions a program lies in (empty inside the guard, see `guard_iff_no_region`) -/
+def guardRegions (t : Table) (mro : List Nat) (members : List Key) (ia : Intr) (inst : InstNs) : List String :=
+  (mro.flatMap fun c => (nsOf t c).flatMap fun p => memberRegions members ia p.1 p.2) ++
+  inst.flatMap fun p => instRegions members ia p.2
 
 end PedVerif.Mixins
